@@ -306,6 +306,9 @@ func ruleC19OptionComparedToItsOwnChoices(c *Ctx) {
 				c.CallSites++
 				c.FuncsAnalysed[shortName(f)] = true
 				val := strings.Trim(k.ExactString(), `"`)
+				if val == "" {
+					continue // "is the option set at all" — not a choice being tested
+				}
 				among := false
 				for _, ch := range choices {
 					if ch == val {
@@ -541,6 +544,31 @@ func ruleC18CreatedIsEpochSeconds(c *Ctx) {
 	c.rule("C18.created-is-epoch-seconds", "in package appencryption every creation time handed to internal.GenerateKey is the result of (time.Time).Unix() or of newKeyTimestamp, and newKeyTimestamp returns a (time.Time).Unix()", 3)
 	var unixSeconds func(v ssa.Value, depth int) (bool, string)
 	unixSeconds = func(v ssa.Value, depth int) (bool, string) {
+		if p, isP := resolve(v).(*ssa.Parameter); isP && depth < 2 {
+			// a parameter of an unexported helper: what every call site passes
+			h := p.Parent()
+			if h != nil && h.Parent() == nil && h.Object() != nil && !h.Object().Exported() {
+				idx := -1
+				for k, q := range h.Params {
+					if q == p {
+						idx = k
+					}
+				}
+				buildCallSiteIndex(h)
+				sites := callSiteIndex[orig(h)]
+				if idx >= 0 && len(sites) > 0 && !addressTaken[orig(h)] {
+					for _, site := range sites {
+						if idx >= len(site.Common().Args) {
+							return false, describeOperand(p)
+						}
+						if ok2, got := unixSeconds(site.Common().Args[idx], depth+1); !ok2 {
+							return false, got
+						}
+					}
+					return true, "parameter fed with seconds at every call site"
+				}
+			}
+		}
 		cv, ok := resolve(v).(*ssa.Call)
 		if !ok || staticCallee(cv) == nil {
 			return false, describeOperand(resolve(v))
